@@ -548,3 +548,15 @@ M('c01b-percent-needs-one-more-keep', 'C01', 'keep', 'htp/htp_util.c',
 M('c01b-percent-guard-off-by-one', 'C01', 'break', 'htp/htp_util.c',
   '        if (c == \'%\') {\n            if (rpos + 2 < len) {\n                int handled = 0;\n\n                if (cfg->decoder_cfgs[HTP_DECODER_URL_PATH].u_encoding_decode) {',
   '        if (c == \'%\') {\n            if (rpos + 2 <= len) {\n                int handled = 0;\n\n                if (cfg->decoder_cfgs[HTP_DECODER_URL_PATH].u_encoding_decode) {', 'C01.b')
+
+# ---------------- C01.j
+M('c01j-strncpy-past-buffer', 'C01', 'break', 'htp/htp_multipart.c',
+  'strncpy(buf, part->parser->extract_dir, 254);', 'strncpy(buf, part->parser->extract_dir, 256);', 'C01.j')
+M('c01j-dup-copies-terminator', 'C01', 'break', 'htp/bstr.c',
+  '    bstr *bnew = bstr_alloc(len);\n    if (bnew == NULL) return NULL;\n    memcpy(bstr_ptr(bnew), data, len);', '    bstr *bnew = bstr_alloc(len);\n    if (bnew == NULL) return NULL;\n    memcpy(bstr_ptr(bnew), data, len + 1);', 'C01.j')
+M('c01j-first-buffer-one-short', 'C01', 'break', RQ,
+  '        connp->in_buf = malloc(len);\n        if (connp->in_buf == NULL) return HTP_ERROR;', '        connp->in_buf = malloc(len - 1);\n        if (connp->in_buf == NULL) return HTP_ERROR;', 'C01.j')
+M('c01j-append-count-rewritten-keep', 'C01', 'keep', RQ,
+  '        memcpy(connp->in_buf + connp->in_buf_size, data, len);', '        memcpy(connp->in_buf + connp->in_buf_size, data, newsize - connp->in_buf_size);')
+M('c01j-ipv6-copy-guard-weakened', 'C01', 'break', 'htp/htp_util.c',
+  '        if (len < 2 || len - 2 >= INET6_ADDRSTRLEN) {', '        if (len < 2 || len - 2 > INET6_ADDRSTRLEN + 1) {', 'C01.j')
